@@ -98,12 +98,18 @@ def _node(op, av):
     raise Unsupported(str(op))
 
 
-def translate(pattern, fullmatch=False):
-    """z3 regex of the language {s : re.match(pattern, s)} for a pattern of the form ^...$ (or, with
-    fullmatch=True, of {s : re.fullmatch(pattern, s)})"""
+def translate(pattern, fullmatch=False, how=None, flags=0):
+    """z3 regex of the language {s : re.<how>(pattern, s)} with how in match / fullmatch / search (fullmatch=True is
+    the older spelling of how='fullmatch').  Anchors are allowed only as ^ at the start and $ at the end; '$' without
+    re.MULTILINE also matches before one trailing newline (modelled); flags other than re.UNICODE are refused."""
+    how = how or ("fullmatch" if fullmatch else "match")
+    if flags & ~int(re.UNICODE):
+        raise Unsupported("regex flags %r" % flags)
     items = list(sre_parse.parse(pattern))
+    begin = False
     if items and items[0] == (C.AT, C.AT_BEGINNING):
         items = items[1:]
+        begin = True
     end = False
     if items and items[-1] == (C.AT, C.AT_END):
         items = items[:-1]
@@ -112,12 +118,16 @@ def translate(pattern, fullmatch=False):
         if op == C.AT:
             raise Unsupported("anchor inside the pattern")
     body = _seq(items)
-    if not end:
-        if fullmatch:
-            return body
-        return z3.Concat(body, z3.Star(ANY1))  # re.match without $ accepts any suffix
-    if fullmatch:
+    if how == "fullmatch":
+        # the whole string must be consumed; '$' can still only sit at the end or before a final newline, and the
+        # newline would have to be consumed by the body, so the language is that of the body
         return body
+    if how == "search" and not begin:
+        body = z3.Concat(z3.Star(ANY1), body)
+    elif how not in ("match", "search"):
+        raise Unsupported("re.%s" % how)
+    if not end:
+        return z3.Concat(body, z3.Star(ANY1))  # without $ any suffix is accepted
     return z3.Concat(body, z3.Option(z3.Re("\n")))
 
 
